@@ -56,6 +56,7 @@ type c12Case struct {
 	ms      *yang.ModSet
 	clash   bool
 	inlined *yang.ModSet // hand-written inline definition (fixed cases); nil: use the source-level expander
+	crossClash     bool            // the clash is between nodes of two modules (namespaces differ)
 	inheritedWhens map[string]bool // fixed cases: the when expressions that stand on a uses / augment in the source
 }
 
@@ -184,7 +185,16 @@ func c12Gen(seed int64, idx int) c12Case {
 	case 7:
 		// sibling clash introduced by uses / augment
 		c.clash = true
-		switch (idx / 10) % 7 {
+		switch (idx / 10) % 8 {
+		case 7:
+			// an augment from another module adds a node named like a child of its target: the names differ by
+			// namespace, so this is refused or both nodes exist — the target's own child is never replaced
+			pa := m.Find("prefix").Arg
+			m.Add(yang.S("container", "cl-use", yang.S("leaf", "same", yang.S("type", "int8")), yang.S("leaf", "other", yang.S("type", "string"))))
+			ms.Mods = append(ms.Mods, yang.S("module", "cl-aug", yang.S("namespace", "urn:verif:cl-aug"), yang.S("prefix", "cla"),
+				yang.S("import", m.Arg, yang.S("prefix", pa)),
+				yang.S("augment", "/"+pa+":cl-use", yang.S("leaf", "same", yang.S("type", "string")))))
+			c.crossClash = true
 		case 3:
 			// a choice shares the identifier namespace of its sibling data nodes (RFC 6020 6.2.1)
 			m.Add(yang.S("grouping", "clg", yang.S("choice", "same", yang.S("leaf", "inner", yang.S("type", "string")))),
@@ -306,9 +316,21 @@ func (p *c12) Run(tier string, seed int64, idx int) core.CaseResult {
 	}
 	if c.clash {
 		res.Ev("clash_sets", 1)
+		if c.crossClash {
+			if fr.Accepted() {
+				// accepted: then both nodes are there
+				n := strings.Count(fr.Dump, "leaf same\n")
+				res.Ev("cross_module_homonyms_accepted", 1)
+				if n != 2 {
+					res.Fail("C12/sibling-clash-accepted/cross-module-homonym-replaces-the-target's-child", input,
+						fmt.Sprintf("the set compiled and container cl-use has %d leaf named same (the target's own and the augmenting one are two nodes)", n))
+				}
+			}
+			return res
+		}
 		if fr.Accepted() {
 			cls := "C12/sibling-clash-accepted"
-			if k := (idx / 10) % 7; k >= 3 {
+			if k := (idx / 10) % 8; k >= 3 && k <= 6 {
 				// reference-side class: the clash is between a choice and a data node
 				cls += "/choice-and-data-node"
 			}
